@@ -149,3 +149,10 @@ pub use orders::PegReferenceType;
 pub use orders::{OrderId, OrderType, OrderUpdate, Side, TimeInForce};
 pub use price_level::{OrderQueue, PriceLevel, PriceLevelData, PriceLevelSnapshot};
 pub use utils::{UuidGenerator, setup_logger};
+
+#[cfg(feature = "verif-hooks")]
+pub mod verif_hooks;
+#[cfg(feature = "verif-hooks")]
+pub use execution::TransactionList;
+#[cfg(feature = "verif-hooks")]
+pub use price_level::{PriceLevelSnapshotPackage, PriceLevelStatistics};
